@@ -146,7 +146,8 @@ def run(ctx):
                         for t in range(T):
                             for a in range(Ntr):
                                 for b in range(Ntr):
-                                    val = P.content[t][a, b].value
+                                    # a later GEVP symmetrises its input first: the energies live in the symmetric part of the pruned matrix
+                                    val = 0.5 * (P.content[t][a, b].value + P.content[t][b, a].value)
                                     if a == b:
                                         exps.append("(%s, %s, %s, %s)" % (qlit(float(val)), qlit(E[a]), qlit(Fraction(t - t0p)), qlit(2.0 ** -16 * float(np.exp(-Ef[a] * (t - t0p))))))
                                     else:
